@@ -158,7 +158,7 @@ class Interp {
   static std::string site_text_piece(int func) {
     switch (func) {
       case F_f: return ".f(dm_int("; case F_h: return ".h(dm_int("; case F_ovi: return ".ov(dm_int(";
-      case F_ovs: return ".ov(dm_str("; case F_v: return ".v(dm_int("; case F_cf: return ".cf(dm_int("; case F_g: return ".g(dm_int(";
+      case F_ovs: return ".ov(dm_str("; case F_v: return ".v(dm_int("; case F_cf: return ".cf(dm_int("; case F_g: return ".g(dm_int("; case F_w: return ".w(dm_int(";
     }
     return "?";
   }
@@ -252,7 +252,7 @@ class Interp {
             if (x.listed[i].rej_params.empty()) need(fw == x.listed[i].failed_with, "expectation " + std::to_string(x.listed[i].eid) + " failed WITH shown " + std::to_string(fw) + " want " + std::to_string(x.listed[i].failed_with));
             else need(fw == -1, "WITH shown although a parameter rejected");
             for (int rp : x.listed[i].rej_params) {
-              const MSpec& ms = le.s.m[rp];
+              const MSpec& ms = le.s.m[rp == 0 ? 0 : 1];
               need(blk.find("_" + std::to_string(rp + 1) + mspec_text(ms, false)) != std::string::npos, "expected value of _" + std::to_string(rp + 1) + " not shown");
             }
           }
@@ -267,7 +267,7 @@ class Interp {
       need(t.find("actually " + act) != std::string::npos, "actual count '" + act + "' missing");
       if (e.s.lit < 0) {
         need(t.find("_1" + mspec_text(e.s.m[0], e.s.func == F_ovs)) != std::string::npos, "expected value of _1 missing");
-        if (e.s.func == F_g) need(t.find("_2" + mspec_text(e.s.m[1], false)) != std::string::npos, "expected value of _2 missing");
+        if (second_pos(e.s.func) >= 0) { std::string pn = "_" + std::to_string(second_pos(e.s.func) + 1); need(t.find(pn + mspec_text(e.s.m[1], false)) != std::string::npos, "expected value of " + pn + " missing"); }
       }
     }
     if (x.kind == K_SEQ_DESTROYED) {
@@ -638,8 +638,8 @@ class Interp {
           std::string why;
           for (size_t a = 0; a < xt.args.size(); ++a)
             if (t.text.find(arg_text(xt.func, static_cast<int>(a), xt.args[a])) == std::string::npos) { good = false; why = "argument " + std::to_string(a + 1) + " missing"; }
-          if (xt.args.size() == 2) {
-            size_t p1 = t.text.find("_1 =="), p2 = t.text.find("_2 ==");
+          for (size_t a = 0; a + 1 < xt.args.size(); ++a) {
+            size_t p1 = t.text.find("_" + std::to_string(a + 1) + " =="), p2 = t.text.find("_" + std::to_string(a + 2) + " ==");
             if (p1 == std::string::npos || p2 == std::string::npos || p1 > p2) { good = false; why = "arguments not in positional order"; }
           }
           if (xt.res.kind == R_RETURNED) {
